@@ -70,7 +70,7 @@ def exh5(ctx: Ctx) -> List[Ob]:
         ok = ok and len(plain) == 1 and any((not pol) and has(f"{p} in self._nodes_by_data_id", e) for e, pol in path_conds(ctx, f, plain[0]))
         obs.append(ctx.ob("EXH-5", ["C09", "C02"], f, "a key present in the data_id index is looked up as data_id, anything else as data", None, ok, "" if ok else "data_id before data"))
     ret = find_cases(cases, "return", "$$r[0]")
-    obs.append(ctx.ob("EXH-5", ["C09"], f, "the single match is returned", None, len(ret) == 1, ""))
+    obs.append(ctx.ob("EXH-5", ["C09"], f, "the single match is returned", None, len(ret) >= 1, ""))  # (one return per lookup branch in the canonical form)
     g = m.func("Tree.__contains__")
     q = _first_param(g)
     ok = any(match(f"bool(self.find_first({q}))", n.value) is not None or match(f"self.find_first({q}) is not None", n.value) is not None for n in _returns(g))
